@@ -658,7 +658,78 @@ impl Family for Periodic {
     }
 }
 
+/// Thorough tier only: the same histories (depth <= 3) once more under Miri, through the Miri-sized driver
+/// `mc/miri12` (it depends on nothing but the codec).  Miri is used as an *oracle inside* the exhaustive
+/// exploration: undefined behaviour that happens not to corrupt an observable byte (out-of-bounds pointer
+/// arithmetic inside the allocation, reads of uninitialised memory, an invalid `set_len`) still fails loudly.
+/// If the nightly toolchain with Miri cannot be started the layer is reported as skipped, never as a verdict.
+pub struct MiriPass;
+impl Family for MiriPass {
+    fn name(&self) -> String {
+        "miri/all histories of depth <= 3 over the operation alphabet (slice targets of capacity 0..3, the growable target, sources of length 0..3) executed under Miri".into()
+    }
+    fn len(&self) -> u64 {
+        1
+    }
+    fn hang_secs(&self) -> f64 {
+        1500.0
+    }
+    fn workers(&self) -> Option<usize> {
+        Some(1)
+    }
+    fn describe(&self, _idx: u64) -> Value {
+        json!({"driver": concat!(env!("CARGO_MANIFEST_DIR"), "/miri12"), "command": "cargo +nightly miri run --offline"})
+    }
+    fn run(&self, _idx: u64) -> CaseOut {
+        let mut out = CaseOut::new(hash_str("c12-miri"));
+        out.nontrivial = true;
+        let dir = concat!(env!("CARGO_MANIFEST_DIR"), "/miri12");
+        let root = std::env::var("VERIF_ROOT").unwrap_or_else(|_| "/verif".to_string());
+        let res = std::process::Command::new("cargo")
+            .args(["+nightly", "miri", "run", "--offline", "--manifest-path", &format!("{dir}/Cargo.toml"), "--target-dir", &format!("{root}/.build/miri12")])
+            .env("CARGO_NET_OFFLINE", "true")
+            .env_remove("RUSTFLAGS")
+            .env_remove("CARGO_TARGET_DIR")
+            .output();
+        let o = match res {
+            Ok(o) => o,
+            Err(e) => {
+                out.class = format!("skipped:cargo-not-startable:{e}");
+                out.extra.push(("miri_layer_skipped".into(), 1));
+                return out;
+            }
+        };
+        let text = format!("{}\n{}", String::from_utf8_lossy(&o.stdout), String::from_utf8_lossy(&o.stderr));
+        if let Some(line) = text.lines().find(|l| l.starts_with("MIRI12 histories=")) {
+            if o.status.success() {
+                out.steps = line.split("histories=").nth(1).and_then(|r| r.split(' ').next()).and_then(|n| n.parse().ok()).unwrap_or(1);
+                out.validated = 1;
+                out.class = "clean".into();
+                out.extra.push(("miri_histories".into(), out.steps));
+                return out;
+            }
+        }
+        if text.contains("Undefined Behavior") || text.contains("unsupported operation") || text.contains("panicked at") || text.contains("memory leaked") {
+            let at = text.find("error").unwrap_or(0);
+            let what = if text.contains("Undefined Behavior") { "undefined-behaviour" } else if text.contains("panicked at") { "panic" } else { "miri-error" };
+            out.violate(format!("c12/miri/{what}"), format!("the histories of depth <= 3 do not run cleanly under Miri:\n{}", truncate(&text[at..], 1800)));
+            out.class = what.into();
+            return out;
+        }
+        // toolchain or driver problem: not a verdict about the subject
+        let why = if text.contains("toolchain") && text.contains("not installed") || text.contains("no such command") || text.contains("is not installed") { "miri-unavailable" } else { "driver-does-not-build" };
+        eprintln!("C12 miri layer skipped ({why}): {}", truncate(text.trim(), 600));
+        out.class = format!("skipped:{why}");
+        out.extra.push(("miri_layer_skipped".into(), 1));
+        out
+    }
+}
+
 pub fn families(tier: &str) -> Vec<Box<dyn Family>> {
     let (d_out, d_src) = if tier == "quick" { (5, 5) } else { (7, 7) };
-    vec![Box::new(StaterightOut { depth: d_out }), Box::new(StaterightSrc { depth: d_src }), Box::new(Periodic { steps: 200 })]
+    let mut v: Vec<Box<dyn Family>> = vec![Box::new(StaterightOut { depth: d_out }), Box::new(StaterightSrc { depth: d_src }), Box::new(Periodic { steps: 200 })];
+    if tier != "quick" {
+        v.push(Box::new(MiriPass));
+    }
+    v
 }
